@@ -90,6 +90,12 @@ def rule_who(ctx: Ctx):
         for c, node, how in g.callers(s):
             n_callers += 1
             ok = c.qualname in ("StateMachine.__init__", "StateMachine.__setstate__") or (c.name == "start" and c.cls is not None and k.base in ctx.p.mro(c.cls))
+            if not ok and ctx.is_new(c):
+                # a helper introduced later: fine when every chain of callers ends in the constructor / __setstate__
+                cs = g.callers(c)
+                ok = bool(cs) and all(x.qualname in ("StateMachine.__init__", "StateMachine.__setstate__") or
+                                      (ctx.is_new(x) and all(y.qualname in ("StateMachine.__init__", "StateMachine.__setstate__") for y, _, _ in g.callers(x)))
+                                      for x, _, _ in cs)
             rep.check(ok, "C11.who", c.loc(node), "start() is invoked only when a machine object is (re)built", c.key, norm_stmt(node))
     rep.floor("C11.who", "callers of start()", n_callers, 2)
     for eng in k.engines:
